@@ -84,7 +84,8 @@ fn perturb_sig(sig: &Signature, p: &str) -> Option<Option<Signature>> {
                 PublicKeyAlgorithm::ECDSA => PublicKeyAlgorithm::EdDSALegacy,
                 PublicKeyAlgorithm::Ed25519 => PublicKeyAlgorithm::Ed448,
                 PublicKeyAlgorithm::RSA => PublicKeyAlgorithm::RSASign,
-                other => other,
+                PublicKeyAlgorithm::Ed448 => PublicKeyAlgorithm::Ed25519,
+                _ => PublicKeyAlgorithm::RSA,
             };
         }
         "hashalg" => {
